@@ -73,8 +73,8 @@ func init() {
 			}
 			return tuple{"0123456789abcdef0123456789abcdef", ob, "corrhost"}
 		},
-		"(*math/rand.rngSource).Int63":  extRandInt63,
-		"(*math/rand.rngSource).Uint64": extRandInt63,
+		"(*math/rand.rngSource).Int63":  extRandSourceInt63,
+		"(*math/rand.rngSource).Uint64": extRandSourceInt63,
 		"(*math/rand.rngSource).Seed":   func(fr *frame, a []value) value { return nil },
 		"math/rand.Int63":               extRandInt63,
 		"math/rand.Int":                 extRandInt63,
@@ -99,6 +99,17 @@ func (p *Path) freshRand(label string, w int) *Term {
 	p.ndCounter++
 	v := p.newVar(label, w)
 	return v
+}
+
+// extRandSourceInt63: a rand.Source is not safe for concurrent use; drawing
+// from it writes its state (tracked by the race detector).
+func extRandSourceInt63(fr *frame, a []value) value {
+	if cell, ok := a[0].(*value); ok && cell != nil {
+		if r := fr.raceOn(); r != nil && len(fr.p.sched.gs) > 1 {
+			fr.raceAccessCell(r, cell, true, 0)
+		}
+	}
+	return extRandInt63(fr, a)
 }
 
 func extRandInt63(fr *frame, a []value) value {
